@@ -11,7 +11,7 @@ def run(pid, tier, replay=None):
     sc = ck.scratch
     D = 4 if tier == "quick" else 6
     ck.assumptions += [
-        "contents are index-coded small integers (two codings, one with negative entries): every product and sum is exact, any misplaced element changes the result",
+        "contents are index-coded small integers (four codings: positive, with negative entries, with scattered exact zeros, with a zero first column / row): every product and sum is exact, any misplaced element changes the result",
         "all dimension triples in 1..%d (rectangular, inner dimension one included); larger dimensions are not enumerated" % D,
         "writes outside the result array: guard cells around the result inside an exactly sized heap block under ASan",
     ]
